@@ -153,16 +153,19 @@ def ledger_rules(ctx, m, twf, q, push, pas, agg, tparam, delta):
     w = m.w
     # ---------------------------------------------------------------- call sites of the trade writer
     tname = tparam[2] if tparam[0] == "param" else None
+    # (call contexts in the side-specialised whole-operation views of the public mutating entry points)
     sites = []
-    for f in m.book_all_fns():
-        fq = m.q(f)
-        for c in fq.calls(twf.name):
-            if c.target is not None and c.target.path == twf.path:
-                sites.append((fq, c))
+    for f in [f_ for f_ in m.book_pub_fns() if f_.params and f_.params[0] == "self"]:
+        for S_ in ("Bid", "Ask"):
+            fq = m.sv(f, S_)
+            live = fq.cfg.reach_from(0)
+            for c in fq.calls(twf.name):
+                if c.target is not None and c.target.path == twf.path and c.b in live:
+                    sites.append((fq, c))
     ctx.check(len(sites) >= 2, "call-sites", "count", "-", "%d call sites of the trade writer (>= 2: one per matching direction)" % len(sites))
     for fq, c in sites:
         a_t = c.arg_named(tname) if tname else None
-        ctx.check(a_t is not None and fld(a_t, m.f_clock) and field_chain(a_t)[0][0] == "param", "record-time", fq.fn.short(), c.loc(),
+        ctx.check(a_t is not None and fld(a_t, m.f_clock) and field_chain(a_t)[0] == ("param", 1, "self"), "record-time", fq.fn.short(), c.loc(),
                   "trade time argument <- self.%s (book clock at execution)" % m.f_clock,
                   "trade time argument is %s, not the book clock" % (render(a_t) if a_t else "?"))
         a_tr = c.args[c.formals.index(push_formal(q, push))] if push_formal(q, push) in c.formals else None
@@ -175,8 +178,8 @@ def ledger_rules(ctx, m, twf, q, push, pas, agg, tparam, delta):
         ctx.check(is_table and from_best, "call-sites", "passive-arg|" + fq.fn.short(), c.loc(),
                   "passive argument <- order table entry at the id returned by best_order_idx",
                   "passive argument is %s, not the order-table entry at best_order_idx()" % (render(a_p) if a_p else "?"))
-        ctx.check(a_a is not None and field_chain(a_a)[0][0] == "param" and not any(x[0] == "call" for x in walk(a_a)), "call-sites", "aggressor-arg|" + fq.fn.short(), c.loc(),
-                  "aggressor argument <- the matcher's own order parameter (%s)" % (render(a_a) if a_a else "?"),
+        ctx.check(a_a is not None and not any(x[0] == "call" and x[4] == "best_order_idx" for x in walk(a_a)) and a_a != a_p, "call-sites", "aggressor-arg|" + fq.fn.short(), c.loc(),
+                  "aggressor argument <- the order the operation is about (%s), not a queue head" % (render(a_a) if a_a else "?"),
                   "aggressor argument is %s" % (render(a_a) if a_a else "?"))
     # (3) every fill volume reaches the cumulative counter (directly or through returned accumulators)
     fill_flow(ctx, m, twf, rule="counter")
@@ -373,7 +376,7 @@ def fill_flow(ctx, m, twf, rule="counter"):
     for f in book:
         if summary.get(f.path) and (f.pub or not m.w.callers(f)) and f.path != twf.path:
             ctx.bad(rule, "escapes|" + f.short(), ctx.loc(f), "%s returns fill volume that was not added to the counter, and it is an API entry / has no caller that counts it" % f.short())
-    ctx.check(n_src[0] >= 2, rule, "census", "-", "%d fill-volume sources followed to the counter" % n_src[0])
+    ctx.check(n_src[0] >= 1, rule, "census", "-", "%d fill-volume sources followed to the counter" % n_src[0])
     reset_rule(ctx, m, rule)
     # other writers of the counter
     for f in book:
